@@ -1,20 +1,30 @@
 package semver
 
-// C14 / A14.1: Compare is a total preorder on all strings.
+// C14 / A14.1-A14.2: Compare is a total preorder on all strings and agrees
+// with SemVer 2.0 precedence.
 
 func verifHarnessParseOnly() {
-	v := verifStringUpTo(6)
+	v := verifStringUpTo(verifParam("N", 6))
 	_, ok := parse(v)
 	verifReach("parsed")
 	verifAssert(ok == IsValid(v), "A14.0-isvalid")
 }
 
 func verifHarnessAntisym() {
-	v := verifStringUpTo(4)
-	w := verifStringUpTo(4)
+	n := verifParam("N", 4)
+	v := verifStringUpTo(n)
+	w := verifStringUpTo(n)
 	c1 := Compare(v, w)
 	c2 := Compare(w, v)
 	verifReach("compared")
 	verifAssert(c1 == -c2, "A14.1-antisym")
+	verifAssert(c1 >= -1 && c1 <= 1, "A14.1-range")
 	verifAssert(Compare(v, v) == 0, "A14.1-refl")
+	if !IsValid(v) {
+		if IsValid(w) {
+			verifAssert(c1 == -1, "A14.1-invalid-below-valid")
+		} else {
+			verifAssert(c1 == 0, "A14.1-invalid-equal")
+		}
+	}
 }
